@@ -50,7 +50,7 @@ def _init(polname):
     p = gasol.setup_process(opts)
     # private scratch tree of this check (removed at the end of check())
     import global_params.paths as paths
-    base = os.path.join(common.WORK, "b-c14", "tmp") + "/"
+    base = os.path.join(common.WORK, "b-c14", "run%d" % os.getppid()) + "/"
     os.makedirs(base, exist_ok=True)
     paths.tmp_path = base
     paths.gasol_folder = "gasol_%d" % os.getpid()
@@ -101,8 +101,20 @@ def _run_case(st, case):
     meta0 = (blk.contract_name, blk.block_id, blk.block_name, blk.is_init_block, blk.tag, blk.jump_type,
              blk.jump_to, blk.falls_to)
     out = {"opt_plain": blk.instructions_to_optimize_plain(), "plain": [i.to_plain() for i in items],
-           "input": blk.source_stack}
+           "input": blk.source_stack, "info": {k: st[k] for k in ("sto", "part", "mb", "push0")}}
     bd = {"instructions": list(out["opt_plain"]), "input": blk.source_stack}
+    if case.get("sbl") is not None:
+        # direct call of rebuild_optimized_asm_block with a hand-made (mutated) sub-block list
+        out["direct"] = True
+        out["sbl_get"] = out["sbl"] = [list(x) for x in case["sbl"]]
+        out["keys"] = None
+    else:
+        _front_end(out, blk, bd, p, ir_block, gasol_asm)
+    _rebuild_part(out, blk, items, by_id, meta0, case, opcodes)
+    return out
+
+
+def _front_end(out, blk, bd, p, ir_block, gasol_asm):
     try:
         out["sbl_get"] = ir_block.get_subblocks(bd, storage=p.split_storage, part=p.split_partition)
     except Exception as e:  # noqa
@@ -117,6 +129,11 @@ def _run_case(st, case):
         out["sbl"] = None
         out["keys"] = None
         out["sbl_exc"] = "%s: %s" % (type(e).__name__, str(e)[:100])
+
+
+def _rebuild_part(out, blk, items, by_id, meta0, case, opcodes):
+    from sfs_generator.utils import process_blocks_split
+    from solution_generation.optimize_from_sub_blocks import rebuild_optimized_asm_block
     sbl = out["sbl"] if out["sbl"] is not None else out["sbl_get"]
     if sbl is None:
         return out
@@ -183,6 +200,7 @@ def masks_for(n, rng):
     if n <= 4:
         return [list(c) for r in range(n + 1) for c in itertools.combinations(range(n), r)]
     ms = [[], list(range(n))] + [[k] for k in range(n)]
+    ms = ms[:12]
     while len(ms) < 16:
         m = sorted(rng.sample(range(n), rng.randint(2, n - 1)))
         if m not in ms:
@@ -204,8 +222,8 @@ def block_of_word(word, rng):
 def gen_blocks(tier, rng):
     """list of (kind, block)"""
     out = []
-    L5 = 4 if tier == "quick" else 6           # all five classes anywhere
-    L3 = 5 if tier == "quick" else 7           # optimizable classes only, random well-formed pre/post
+    L5 = 4 if tier == "quick" else 5           # all five classes anywhere
+    L3 = 5 if tier == "quick" else 8           # optimizable classes only, random well-formed pre/post
     for n in range(0, L5 + 1):
         for w in itertools.product("OSXBE", repeat=n):
             out.append(("exh5", block_of_word(w, rng)))
@@ -230,6 +248,46 @@ def gen_blocks(tier, rng):
     return out
 
 
+def mutate_sbl(sbl, rng):
+    """a sub-block list that the front end would not produce: exercises rebuild's asserts, substring tests,
+    index arithmetic (negative index, running past the end)"""
+    m = [list(x) for x in sbl]
+    kind = rng.choice(["prefix", "prefix", "rename", "rename", "delete", "dup", "extra", "empty0", "nil", "head",
+                       "emptyname", "emptymid", "suffix"])
+    pos = [(i, j) for i, b in enumerate(m) for j in range(len(b))]
+    if kind == "nil":
+        return kind, []
+    if kind == "empty0":
+        return kind, [[]] + m
+    if kind == "emptymid" and len(m) >= 1:
+        k = rng.randrange(len(m) + 1)
+        return kind, m[:k] + [[]] + m[k:]
+    if kind == "extra":
+        return kind, m + [[m[-1][-1] if m and m[-1] else "ADD", rng.choice(["ADD", "POP", "JUMP", "STOP"])]]
+    if not pos:
+        return "nil", []
+    i, j = rng.choice(pos)
+    nm = m[i][j]
+    if kind == "prefix":
+        m[i][j] = nm[:rng.randint(1, max(1, len(nm) - 1))]
+    elif kind == "suffix":
+        m[i][j] = nm[rng.randint(0, max(0, len(nm) - 1)):]
+    elif kind == "rename":
+        m[i][j] = rng.choice(["MSTORE", "MSTORE8", "PUSH", "PUSH 1", "JUMP", "JUMPI", "ADD", "POP", "SWAP1", "tag",
+                              "SSTORE", "STORE", "LOG", "DEST", "1"])
+    elif kind == "delete":
+        del m[i][j]
+    elif kind == "dup":
+        m[i].insert(j, nm)
+    elif kind == "head" and len(m) > 1:
+        k = rng.randrange(1, len(m))
+        if m[k]:
+            m[k][0] = rng.choice(["ADD", "LOG", "CALL", "GAS", "MSTORE", ""])
+    elif kind == "emptyname":
+        m[i][j] = ""
+    return kind, m
+
+
 def corpus_blocks():
     d = os.path.join(common.VERIF, "corpus", PID)
     out = []
@@ -246,8 +304,18 @@ def corpus_blocks():
 # ---------------------------------------------------------------------------------------------
 # Coq side
 
+_STR = {}
+
+
 def cs(s):
-    return '"' + s.replace('"', '""') + '"'
+    """a string constant: defined once per cases file (string literals are slow to parse), referred to by name"""
+    if s not in _STR:
+        _STR[s] = "s%d" % len(_STR)
+    return _STR[s]
+
+
+def str_defs():
+    return "".join('Definition %s := "%s".\n' % (n, s.replace('"', '""')) for s, n in _STR.items())
 
 
 def cl(xs, f, ty=None):
@@ -262,6 +330,17 @@ def copt(x, f):
 
 def cbool(b):
     return "true" if b else "false"
+
+
+def runs(ids):
+    """[1,2,3,100000,5,6] -> [(1,3),(100000,1),(5,2)]: exact run-length form of an id list (expanded again in Coq)"""
+    out = []
+    for i in ids:
+        if out and out[-1][0] + out[-1][1] == i:
+            out[-1][1] += 1
+        else:
+            out.append([i, 1])
+    return [tuple(x) for x in out]
 
 
 def cinstr(t):
@@ -286,7 +365,9 @@ Definition sbl_eqb := oeqb (leqb (leqb String.eqb)).
 (* one case: flags, block, implementation answers; returns (agree?, covered by the _partial theorem?, theorem instance ok?) *)
 Definition run (push0 fix1 sto part : bool) (mb : Z) (b : list instr)
   (e_opt : list string) (e_sbl e_segs : option (list (list string)))
-  (masks : list (list nat)) (e_reb : list (option (list Z))) (e_prop : bool) : bool * bool * bool :=
+  (masks : list (list nat)) (e_runs : list (option (list (Z * nat)))) (e_prop : bool) : bool * bool * bool :=
+  let e_reb := map (option_map (flat_map (fun r : Z * nat =>
+                      map (fun i => (fst r + Z.of_nat i)%Z) (seq 0 (snd r))))) e_runs in
   let pl := optimizable_plain push0 b in
   let sbl := sub_block_list sto part mb pl in
   let segs := match sbl with Some s => process_blocks_split s | None => None end in
@@ -297,9 +378,17 @@ Definition run (push0 fix1 sto part : bool) (mb : Z) (b : list instr)
                && leqb (oeqb (leqb Z.eqb)) reb e_reb in
   let covered := shape_ok b && (fix1 || first_ok push0 b) in
   (agree, covered, if covered then e_prop else true).
-Definition bad (l : list (nat * (bool * bool * bool))) : list nat :=
+(* direct call of rebuild with a given (mutated) sub-block list *)
+Definition rund (push0 fix1 : bool) (b : list instr) (sbl : list (list string))
+  (e_segs : option (list (list string))) (masks : list (list nat))
+  (e_runs : list (option (list (Z * nat)))) : bool * bool * bool :=
+  let e_reb := map (option_map (flat_map (fun r : Z * nat =>
+                      map (fun i => (fst r + Z.of_nat i)%Z) (seq 0 (snd r))))) e_runs in
+  let reb := map (fun m => option_map (map payload) (rebuild push0 fix1 b (repl_of m) sbl)) masks in
+  (leqb (oeqb (leqb Z.eqb)) reb e_reb && sbl_eqb (process_blocks_split sbl) e_segs, false, true).
+Definition bad (l : list (Z * (bool * bool * bool))) : list Z :=
   map fst (filter (fun c => negb (fst (fst (snd c))) || negb (snd (snd c))) l).
-Definition ncov (l : list (nat * (bool * bool * bool))) : nat :=
+Definition ncov (l : list (Z * (bool * bool * bool))) : nat :=
   length (filter (fun c => snd (fst (snd c))) l).
 """
 
@@ -309,31 +398,51 @@ def case_term(idx, c):
     o = c["out"]
     sbl = o["sbl"] if o.get("sbl") is not None else o.get("sbl_get")
     reb = [None if "err" in r else r["ids"] for r in o.get("rebuilt", [])]
-    return "(%d%%nat, run %s %s %s %s (%d)%%Z %s %s %s %s %s %s %s)" % (
-        idx, cbool(c["push0"]), cbool(c["fix1"]), cbool(c["sto"]), cbool(c["part"]), c["mb"],
+    if o.get("direct"):
+        return "Definition c%d := ((%d)%%Z, rund %s %s %s %s %s %s %s).\n" % (
+            idx, idx, cbool(c["push0"]), cbool(c["fix1"]), cl(c["block"], cinstr, "instr"),
+            cl(sbl, lambda b: cl(b, cs, "string"), "(list string)"),
+            copt(o.get("segs"), lambda s: cl(s, lambda b: cl(b, cs, "string"), "(list string)")),
+            cl(o.get("masks", []), lambda m: cl(m, lambda k: "%d%%nat" % k, "nat"), "(list nat)"),
+            cl(reb, lambda r: copt(r, lambda ids: cl(runs(ids), lambda z: "((%d)%%Z,%d%%nat)" % z, "(Z*nat)")),
+               "(option (list (Z*nat)))"))
+    return "Definition c%d := ((%d)%%Z, run %s %s %s %s (%d)%%Z %s %s %s %s %s %s %s).\n" % (
+        idx, idx, cbool(c["push0"]), cbool(c["fix1"]), cbool(c["sto"]), cbool(c["part"]), c["mb"],
         cl(c["block"], cinstr, "instr"), cl(o["opt_plain"], cs, "string"),
         copt(sbl, lambda s: cl(s, lambda b: cl(b, cs, "string"), "(list string)")),
         copt(o.get("segs"), lambda s: cl(s, lambda b: cl(b, cs, "string"), "(list string)")),
         cl(o.get("masks", []), lambda m: cl(m, lambda k: "%d%%nat" % k, "nat"), "(list nat)"),
-        cl(reb, lambda r: copt(r, lambda ids: cl(ids, lambda z: "(%d)%%Z" % z, "Z")), "(option (list Z))"),
+        cl(reb, lambda r: copt(r, lambda ids: cl(runs(ids), lambda z: "((%d)%%Z,%d%%nat)" % z, "(Z*nat)")), "(option (list (Z*nat)))"),
         cbool(c["prop_ok"]))
 
 
 def coq_compare(run, cases, tag):
     """cases -> list of indices that disagree (model vs implementation, or theorem instance broken)"""
     files = []
-    per = 400
+    per = 200
     for fi in range(0, len(cases), per):
         chunk = cases[fi:fi + per]
-        body = PRE + "Definition cases := [\n" + ";\n".join(case_term(fi + j, c) for j, c in enumerate(chunk)) + \
-            "\n].\nEval vm_compute in (bad cases, ncov cases).\n"
+        _STR.clear()
+        terms = "".join(case_term(fi + j, c) for j, c in enumerate(chunk))
+        body = PRE + str_defs() + terms + "Definition cases := [" + \
+            "; ".join("c%d" % (fi + j) for j in range(len(chunk))) + \
+            "].\nEval vm_compute in (bad cases, ncov cases).\n"
         files.append(("c14_%s_%04d" % (tag, fi // per), body))
     res = common.run_cases_parallel(files, timeout=900)
     badidx, ncov, broken = [], 0, []
-    for name, _ in files:
+    pat = r"=\s*\(\s*\[(.*?)\]\s*,\s*(\d+)(?:%nat)?\s*\)\s*:\s*list Z \* nat"
+    for name, body in files:
         ok, outp = res[name]
-        m = re.search(r"=\s*\(\s*\[(.*?)\]\s*,\s*(\d+)\s*\)", outp, re.S)
-        if not ok or not m:
+        m = re.search(pat, outp, re.S)
+        tries = 0
+        while not m and tries < 2 and re.search(r"Can't open|No such file|cannot open", outp):
+            # coq/Cases is shared with the other checks, one of which may have emptied it: write the file again
+            tries += 1
+            ok, outp = common.run_cases(name, body, timeout=900)
+            m = re.search(pat, outp, re.S)
+        # the printed value is the kernel's answer; failing to write the .vo afterwards (directory removed by a
+        # concurrent check) does not invalidate it
+        if not m:
             broken.append((name, outp[-600:]))
             continue
         badidx += [int(x) for x in re.findall(r"\d+", m.group(1))]
@@ -344,14 +453,23 @@ def coq_compare(run, cases, tag):
 def coq_show(run, c):
     """model outputs of one case, as text (diagnostics for replay files)"""
     o = c["out"]
-    body = PRE + """Definition b := %s.
+    _STR.clear()
+    blk = cl(c["block"], cinstr, "instr")
+    if o.get("direct"):
+        body0 = "Definition b := %s.\nDefinition sbl := %s.\nEval vm_compute in (process_blocks_split sbl).\n" \
+                "Eval vm_compute in (map (fun m => option_map (map payload) (rebuild %s %s b (repl_of m) sbl)) %s).\n" % (
+                    blk, cl(o["sbl"], lambda b: cl(b, cs, "string"), "(list string)"), cbool(c["push0"]), cbool(c["fix1"]),
+                    cl(o.get("masks", []), lambda m: cl(m, lambda k: "%d%%nat" % k, "nat"), "(list nat)"))
+        ok, outp = common.run_cases("c14_show", PRE + str_defs() + body0, timeout=120)
+        return re.sub(r"\s+", " ", outp)[:3000]
+    body = PRE + str_defs() + """Definition b := %s.
 Definition pl := optimizable_plain %s b.
 Eval vm_compute in pl.
 Eval vm_compute in (sub_block_list %s %s (%d)%%Z pl).
 Eval vm_compute in (match sub_block_list %s %s (%d)%%Z pl with Some s => process_blocks_split s | None => None end).
 Eval vm_compute in (match sub_block_list %s %s (%d)%%Z pl with Some s => map (fun m => option_map (map payload) (rebuild %s %s b (repl_of m) s)) %s | None => [] end).
 Eval vm_compute in (shape_ok b, first_ok %s b).
-""" % (cl(c["block"], cinstr, "instr"), cbool(c["push0"]), cbool(c["sto"]), cbool(c["part"]), c["mb"],
+""" % (blk, cbool(c["push0"]), cbool(c["sto"]), cbool(c["part"]), c["mb"],
        cbool(c["sto"]), cbool(c["part"]), c["mb"], cbool(c["sto"]), cbool(c["part"]), c["mb"],
        cbool(c["push0"]), cbool(c["fix1"]), cl(o.get("masks", []), lambda m: cl(m, lambda k: "%d%%nat" % k, "nat"), "(list nat)"),
        cbool(c["push0"]))
@@ -389,6 +507,8 @@ def property_failures(c):
     """evaluates C14's predicates on the implementation's outputs of one case; list of (kind, detail)"""
     o, block = c["out"], c["block"]
     fails = []
+    if o.get("direct"):
+        return fails                      # mutated sub-block lists only exercise the model of rebuild's asserts
     if not o["opt_plain"]:
         return fails                      # nothing to optimize: gasol_asm returns the block before splitting
     if o.get("sbl") is not None and o.get("sbl_get") is not None and o["sbl"] != o["sbl_get"]:
@@ -470,12 +590,31 @@ def property_failures(c):
 
 # ---------------------------------------------------------------------------------------------
 
+_PRE = []
+
+
+def _preimport():
+    """import GASOL's modules once in the parent so that the forked workers do not pay for it again
+    (importing runs no pipeline code; all state changes happen in the workers' setup_process)"""
+    if not _PRE:
+        import gasol_asm  # noqa
+        import sfs_generator.ir_block  # noqa
+        import sfs_generator.gasol_optimization  # noqa
+        import solution_generation.optimize_from_sub_blocks  # noqa
+        _PRE.append(1)
+
+
 def run_impl(polname, blocks, masks=None, timeout=60):
     items = [{"block": b, "masks": masks} for b in blocks]
     # one set of workers per policy: the policy lives in module globals of the implementation
-    res = gasol.pmap(_run_case, items, init=_init, initargs=(polname,), timeout=timeout)
-    info = gasol.pmap(lambda st, _: {k: st[k] for k in ("sto", "part", "mb", "push0")}, [0], init=_init,
-                      initargs=(polname,), procs=1)[0][1]
+    _preimport()
+    res = gasol.pmap(_run_case, items, init=_init, initargs=(polname,), timeout=timeout,
+                     procs=min(common.NCPU, max(1, len(items) // 40)))
+    info = None
+    for st, o in res:
+        if st == "ok":
+            info = o["info"]
+            break
     return res, info
 
 
@@ -530,6 +669,8 @@ def check(run):
                               {"policy": pol, "block": b}, found_input=True):
                     pass
                 continue
+            if info is None:
+                continue
             c = {"pol": pol, "kind": kind, "block": b, "out": o, "fix1": fix1, **info}
             c["fails"] = property_failures(c)
             c["prop_ok"] = not c["fails"]
@@ -541,9 +682,35 @@ def check(run):
             bump(dist["len"], min(len(b), 90) // 5 * 5)
             bump(dist["class"], classify(b))
             if o.get("sbl") is None and o["opt_plain"]:
-                dist["front_end_exc"] += 1
+                dist["front_end_exc"] += 1      # evm2rbr_compiler raised after splitting; get_subblocks answered
+                if len(dist.setdefault("front_end_exc_samples", [])) < 3:
+                    dist["front_end_exc_samples"].append({"policy": pol, "block": " ".join(o["plain"]),
+                                                          "exception": o.get("sbl_exc")})
             for r in o.get("rebuilt", []):
                 bump(dist["rebuild_outcome"], r.get("err", "ok"))
+    # direct calls of rebuild with mutated sub-block lists (model of the asserts / substring tests / indexing)
+    base = [c for c in allcases if c["pol"] in ("default", "storage") and c["out"].get("sbl") and c["out"]["opt_plain"]]
+    rng2 = random.Random(run.seed + 14)
+    nd = 600 if run.tier == "quick" else 6000
+    pick = [rng2.choice(base) for _ in range(nd)] if base else []
+    muts = [mutate_sbl(c["out"]["sbl"], rng2) for c in pick]
+    _preimport()
+    res = gasol.pmap(_run_case, [{"block": c["block"], "masks": None, "sbl": m} for c, (_, m) in zip(pick, muts)],
+                     init=_init, initargs=("default",), timeout=60)
+    dist["direct_mutation"] = {}
+    for c0, (mk, m), (st, o) in zip(pick, muts, res):
+        bump(dist["status"], st)
+        if st != "ok":
+            run.report({"kind": "implementation-" + st, "policy": "direct"},
+                       "direct rebuild call did not answer (%s: %r)" % (st, o), {"block": c0["block"], "sbl": m})
+            continue
+        c = {"pol": "direct", "kind": "direct:" + mk, "block": c0["block"], "out": o, "fix1": fix1,
+             "sto": False, "part": False, "mb": 22, "push0": o["info"]["push0"], "fails": [], "prop_ok": True}
+        allcases.append(c)
+        bump(dist["kind"], "direct")
+        bump(dist["direct_mutation"], mk)
+        for r in o.get("rebuilt", []):
+            bump(dist["rebuild_outcome"], "direct:" + r.get("err", "ok"))
     run.log("implementation ran on %d cases" % len(allcases))
 
     # model vs implementation inside Coq
@@ -605,15 +772,22 @@ def check(run):
                        "none/all/singletons/random (<= 16).  Each case = one block under one policy; an evaluation = "
                        "one split or one rebuild compared between Coq model and implementation.  distinct non-trivial "
                        "= distinct (policy, instruction sequence) with >= 2 sub-blocks or longer than max_bound."
-                       % ((4 if run.tier == "quick" else 6), (5 if run.tier == "quick" else 7)))
+                       % ((4 if run.tier == "quick" else 5), (5 if run.tier == "quick" else 8)))
     run.cov["distribution"] = dist
     for c in allcases[:: max(1, len(allcases) // 6)]:
         run.add_sample({"policy": c["pol"], "block": " ".join(c["out"]["plain"]),
                         "sub_block_list": c["out"].get("sbl") or c["out"].get("sbl_get"),
                         "rebuilds": len(c["out"].get("rebuilt", []))})
-    common.clean_cases()
+    cdir = os.path.join(common.COQ, "Cases")          # only this check's files (the directory is shared)
+    if os.path.isdir(cdir):
+        for f in os.listdir(cdir):
+            if f.startswith("c14_") or f.startswith(".c14_"):
+                try:
+                    os.remove(os.path.join(cdir, f))
+                except OSError:
+                    pass
     import shutil
-    shutil.rmtree(os.path.join(common.WORK, "b-c14"), ignore_errors=True)
+    shutil.rmtree(os.path.join(common.WORK, "b-c14", "run%d" % os.getpid()), ignore_errors=True)
 
 
 def replay(run, path):
@@ -627,6 +801,8 @@ def replay(run, path):
     b = [tuple(x) for x in rp["block"]]
     pol = rp.get("policy", "default")
     res, info = run_impl(pol, [b])
+    import shutil
+    shutil.rmtree(os.path.join(common.WORK, "b-c14", "run%d" % os.getpid()), ignore_errors=True)
     st, o = res[0]
     if st != "ok":
         print("implementation:", st, o)
